@@ -18,7 +18,7 @@ from .base import viol
 ID = "C09"
 LEVEL = "exploration"
 TIERS = {"quick": {"cases": 700, "wall": 100, "min_nontrivial": 1500, "maxlen": 3},
-         "thorough": {"cases": 16000, "wall": 1800, "min_nontrivial": 40000, "maxlen": 4}}
+         "thorough": {"cases": 16000, "wall": 1800, "min_nontrivial": 20000, "maxlen": 4}}
 RULE = ("part 1: histories h over a 10-symbol alphabet {create(f2003), create(f2008), parse(valid_1..3), "
         "parse(invalid_1..5)} enumerated exhaustively up to length 3 (quick) / 4 (thorough), plus random histories up "
         "to length 8 over ~30 valid and ~30 invalid probes (including every scope-leaking shape known); after h: "
